@@ -29,7 +29,7 @@ def modelJitOutcome (l : Line) : Except String (List String) := do
   let mut b := Bus.create .mbc1 4 32768 rom
   for (a, v) in parsePairs (l.inS "pre") do
     match Bus.write b a v with | .ok b' => b := b' | .error _ => throw "setup"
-  let mut r : Interp.Regs := { af := g 0, bc := g 1, de := g 2, hl := g 3, sp := g 4, ip := at_ }
+  let mut r : Interp.Regs := { af := g 0, bc := g 1, de := g 2, hl := g 3, sp := g 4, ip := at_, cycles := l.inN "cyc" }
   let mut lb : LBus := (b, [])
   let mut st := 0
   let mut fuel := 64
